@@ -1,5 +1,6 @@
 pub mod vc_diff;
 pub mod vc_rules;
+pub mod vc_config;
 pub mod vc_escape;
 pub mod vc_expect;
 
@@ -21,6 +22,7 @@ macro_rules! engines {
 engines! {
     vc_diff::VcDiff => ["C01", "C02", "C03"],
     vc_rules::VcRules => ["C04"],
+    vc_config::VcConfig => ["C16", "C17"],
     vc_escape::VcEscape => ["C11"],
     vc_expect::VcExpect => ["C08"],
 }
